@@ -37,7 +37,7 @@ def sym_digitize(x, bins, right=False):
 def sym_zeros(shape, dtype=float):
     """R4: object zeros so that add.at can accumulate proxies."""
     z = np.empty(shape, dtype=object)
-    z.fill(0)
+    z.fill(np.float64(0.0))  # numpy scalar: nan/0 keeps numpy's float semantics (nan), not ZeroDivisionError
     return z
 
 
@@ -46,6 +46,10 @@ def sym_isclose(a, b, rtol=1e-05, atol=1e-08):
     a = list(a)
     b = list(b)
     out = []
+    # F3: the compared quantities are rates = quotients of integers with denominators <= D = 64, lying
+    # in [0,1]; two distinct rates differ by >= 1/D^2.  When atol + rtol < 1/D^2 the tolerance test is
+    # therefore equivalent to exact equality (harnesses refuse totals above D).
+    exact = (atol + rtol) < 1.0 / (64 * 64)
     for x, y in zip(a, b):
         xs, ys = isinstance(x, Sym), isinstance(y, Sym)
         if not xs and not ys:
@@ -53,6 +57,9 @@ def sym_isclose(a, b, rtol=1e-05, atol=1e-08):
             continue
         if (not xs and x != x) or (not ys and y != y):  # NaN
             out.append(False)
+            continue
+        if exact:
+            out.append(x == y)
             continue
         d = abs(x - y)
         out.append(d <= atol + rtol * abs(y))
